@@ -19,11 +19,12 @@ class Grammar(qc.QGrammar):
         P.queue(1, 1, -1)
         P.queue(2, 2, -1)
         P.queue(3, 0, -1)          # a serial queue that is nobody's target (foreign context)
+        P.queue(4, 4, -1)          # a workloop as target queue
         nsrc = 1 + h[10] % 3
         for s in range(nsrc):
             b, b2 = h[11 + s], h[14 + s % 2]
             typ = [sc.T_ADD, sc.T_TIMER, sc.T_READ, sc.T_ADD, sc.T_WRITE, sc.T_SIGNAL, sc.T_READ, sc.T_SIGNAL][b % 8]
-            tq = [0, 0, 1, 2][(b >> 2) % 4]
+            tq = [0, 0, 1, 2, 4, 0, 1, 2][(b >> 2) % 8]
             has_ch = 0 if (b >> 4) % 4 == 0 and typ not in (sc.T_READ, sc.T_WRITE) else 1
             active = 2 if (b >> 6) % 4 else 0
             cancel_at = [0, 0, 1, 2, 4][b2 % 5]
@@ -133,7 +134,7 @@ def cancel_verdicts(prog, hist):
                 out.append(Verdict("cancellation handler of source %d started (event %d) while an event handler invocation was still running (events %d..%s)" % (sid, p, running[0][0], running[0][1]),
                                    dict(kind="cancel-handler-overlaps-handler")))
             tag = int(ev["val"][p])
-            want = S["tq"] + 1 if S["tq"] in (0, 1) else 0
+            want = S["tq"] + 1 if S["tq"] in (0, 1, 4) else 0
             if tag != want:
                 out.append(Verdict("cancellation handler of source %d ran on queue tag %d, its target queue has tag %d" % (sid, tag, want), dict(kind="cancel-handler-wrong-queue")))
             if S["type"] in (sc.T_READ, sc.T_WRITE) and int(ev["idx"][p]) == 1:
@@ -164,7 +165,7 @@ def cancel_verdicts(prog, hist):
 class Check(sc.SCheck):
     prop = "C16"
     mc_workers = 3
-    rule = ("Hypothesis recipe -> program with 1-3 sources (DATA_ADD, short-interval TIMER, READ on a pipe, WRITE on a 4 kB pipe that the handler fills and peers drain, SIGNAL on SIGUSR1/2 raised by peers) on serial / concurrent / global target queues, with and "
+    rule = ("Hypothesis recipe -> program with 1-3 sources (DATA_ADD, short-interval TIMER, READ on a pipe, WRITE on a 4 kB pipe that the handler fills and peers drain, SIGNAL on SIGUSR1/2 raised by peers) on serial / concurrent / global / workloop target queues, with and "
             "without cancellation handler, created active or inactive: dispatch_source_cancel is issued before activation, after activation before any event, from the "
             "event handler (at its 1st/2nd/4th invocation), from the registration handler while events are already pending, from an item on the serial target queue, from items on other queues, from foreign threads while events keep "
             "arriving (merges, peer writes, timer ticks), twice, and as dispatch_source_cancel_and_wait (only where legal: no cancel handler, not from the handler). "
